@@ -12,7 +12,7 @@ META = {
             'TrackedChannel<..> and their compositions): (a) start_send happens only when the most recent sink event is a poll_ready that returned Ready(Ok); (b) nothing is written after '
             'poll_close completed or after a readiness/flush/close error; (c) every Pending exit has no item written since the last completed flush unless that flush itself is pending; '
             '(d) no cycle of the state graph that lacks a must-progress edge (item dequeued, frame read, timer fired, item written) re-observes a Pending poll_ready — i.e. tarpc never '
-            'retries a not-ready transport within one poll (defect D4, fixed); (e) the Sink impls of BaseChannel and of the decorators hand poll_ready / poll_flush / poll_close to the same-named operation of what they wrap. The abstraction over-approximates: outcomes of every transport/queue/timer call are forked over all shapes.',
+            'retries a not-ready transport within one poll (defect D4, fixed); (e) the Sink impls of BaseChannel and of the decorators hand poll_ready / poll_flush / poll_close to the same-named operation of what they wrap; (f) tarpc\'s own consumer of the request stream stops at its first error item, so nothing is written after a reported failure (C14.stop). The abstraction over-approximates: outcomes of every transport/queue/timer call are forked over all shapes.',
     'note': 'Trusted: shape models of std combinators (Appendix B of DESIGN.md), tokio mpsc and futures Fuse stay ended once ended. Progress-driven re-polls of poll_ready after a Pending '
             '(bounded by input) are recorded, not reported.',
 }
